@@ -162,6 +162,31 @@ example : (split [] [47, 117, 47, 123, 105, 100, 58, 92, 100, 43, 125, 47, 120])
 example : (split [([92, 100, 43], 0)] [123, 105, 100, 58, 92, 100, 43, 125]).toOption.map (·.map (·.kind)) = some [.icpt] ∧
     (split [] [123, 105, 100, 58, 92, 100, 43, 125]).toOption.map (·.map (·.kind)) = some [.rx] := by decide
 
+/-! ### Rules that do not compile on their own (repair D35)
+
+Go compiles the text `(?P<name>` ++ rule ++ `)` ++ quoted suffix.  Before D35 a stray `)` in the rule closed the named
+group early: `/{n:a)|(b}` registered, the group did not take part in a match of `b`, and `Segment.Match` evaluated
+`ctx.Path[:-1]` (a runtime fault at request time — C05).  Since D35 the rule is compiled on its own first, so such a
+pattern is a syntax error; in the model, `parseAlt` stops early only at a stray `)`. -/
+
+theorem C05_syntax_stray_paren (rule : Bytes) (r : Re) (b : UInt8) (rest : Bytes)
+    (h : parseAlt (rule.length + 2) rule = .ok (r, b :: rest)) : parseRule rule = .bad := by
+  simp [parseRule, h]
+
+theorem C05_syntax_stray_paren_compile (name rule : Bytes) (ign : Bool) (r : Re) (b : UInt8) (rest : Bytes)
+    (h : parseAlt (rule.length + 2) rule = .ok (r, b :: rest)) : compileRule name ign rule = .error .regexp := by
+  simp [compileRule, C05_syntax_stray_paren rule r b rest h]
+
+-- `a)|(b`, `a)(b`, `)(`, and a trailing backslash `a\`
+example : (match parseRule [97, 41, 124, 40, 98] with | .bad => true | _ => false) = true := by decide
+example : (match parseRule [97, 41, 40, 98] with | .bad => true | _ => false) = true := by decide
+example : (match parseRule [41, 40] with | .bad => true | _ => false) = true := by decide
+example : (match parseRule [97, 92] with | .bad => true | _ => false) = true := by decide
+-- `/{n:a)|(b}` is rejected as a regexp syntax error
+example : (split [] [47, 123, 110, 58, 97, 41, 124, 40, 98, 125]).toOption = none := by decide
+-- the balanced relatives stay accepted: `(a)|(b)`
+example : (match parseRule [40, 97, 41, 124, 40, 98, 41] with | .ok _ => true | _ => false) = true := by decide
+
 /-! ### `longestPrefix` -/
 
 theorem C05_syntax_longestPrefix_le (a b : Bytes) :
